@@ -65,6 +65,12 @@ func (g *c18gen) op() {
 		g.a.WriteString(fmt.Sprintf(`{{ let(%q, %q) }}`, name, v))
 		g.b.WriteString(fmt.Sprintf(`{{ %s := %q }}`, name, v))
 		top[name] = true
+	case k < 4 && g.allowFail && g.r.Intn(12) == 0:
+		// a name that only resolves to a built-in is no variable: Set reports an error exactly like '='
+		g.feat["set-builtin-name"] = true
+		bn := []string{"len", "upper", "isset"}[g.r.Intn(3)]
+		g.a.WriteString(fmt.Sprintf(`{{ set(%q, %q) }}`, bn, v))
+		g.b.WriteString(fmt.Sprintf(`{{ %s = %q }}`, bn, v))
 	case k < 4:
 		g.feat["set"] = true
 		if !g.visible(name) && (!g.allowFail || g.r.Intn(4) != 0) {
@@ -105,7 +111,13 @@ func (g *c18gen) op() {
 	case (k == 9 || k == 13) && len(g.blocks) > 0:
 		g.feat["yieldblock"] = true
 		b := g.blocks[g.r.Intn(len(g.blocks))]
-		if g.r.Intn(2) == 0 {
+		if g.r.Intn(5) == 0 {
+			// a context that is a typed nil (nil map, nil slice, nil pointer) is a context all the same
+			nv := []string{"nilm", "nils", "nilp"}[g.r.Intn(3)]
+			g.feat["yieldblock-typed-nil-ctx"] = true
+			g.a.WriteString(fmt.Sprintf(`{{ yieldblock(%q, %s) }}`, b, nv))
+			g.b.WriteString(fmt.Sprintf(`{{yield %s() %s}}`, b, nv))
+		} else if g.r.Intn(2) == 0 {
 			c := g.tok()
 			g.feat["yieldblock-ctx"] = true
 			g.a.WriteString(fmt.Sprintf(`{{ yieldblock(%q, %q) }}`, b, c))
@@ -246,6 +258,7 @@ func c18vars(log *[]string, empty bool) jet.VarMap {
 	})
 	vars.SetFunc("kindof", func(a jet.Arguments) reflect.Value { return reflect.ValueOf(a.Get(0).Kind().String()) })
 	vars.Set("rv", "rv0")
+	vars.Set("nilm", map[string]int(nil)).Set("nils", []string(nil)).Set("nilp", (*int)(nil))
 	vars.Set("ifs", []interface{}{"ia", 7})
 	vars.Set("ifm", map[string]interface{}{"only": "mv"})
 	vars.SetFunc("yieldblock", func(a jet.Arguments) reflect.Value {
@@ -308,7 +321,7 @@ func c18run(c *fw.Ctx, idx int) {
 	c.Eval(2)
 	c.Count("twins", 1)
 	var feats []string
-	for _, k := range []string{"let-nil", "let", "set", "set-undeclared", "setorlet", "resolve", "context", "yieldblock", "yieldblock-ctx", "letglobal", "in-if", "in-range", "in-block", "in-include", "in-try", "below-content", "resolve-loop-var"} {
+	for _, k := range []string{"let-nil", "let", "set", "set-undeclared", "setorlet", "resolve", "context", "yieldblock", "yieldblock-ctx", "letglobal", "in-if", "in-range", "in-block", "in-include", "in-try", "below-content", "resolve-loop-var", "set-builtin-name", "yieldblock-typed-nil-ctx"} {
 		if g.feat[k] {
 			feats = append(feats, k)
 			c.Count("feature:"+k, 1)
